@@ -846,7 +846,7 @@ static const int vfr_dims[VFR_NDIM][2] = { { 1, 1 }, { 2, 2 }, { 1, 2 },
 enum { FO_SOLVE, FO_ADDCAL, FO_SAVE_LOAD, FO_APPLY0, FO_GETTERS,
     FO_PROPS, FO_M_ERROR, FO_M_ERROR_GRID, FO_SET_Z0, FO_SETTINGS,
     FO_ADD_EACH, FO_ADD_AB_EACH, FO_PARAMS, FO_DEL_PREDEF, FO_SOLVE_TWICE,
-    FO_ADD_ABBREV, FO_CORR_MERR, FO_TRL_ONEPORT, FO_NOP };
+    FO_ADD_ABBREV, FO_CORR_MERR, FO_TRL_ONEPORT, FO_UNKNOWN_READ, FO_NOP };
 static const char *const vfo_name[FO_NOP] = {
     "solve", "add_calibration", "save + load", "apply calibration 0",
     "every vnacal getter at ci -1..1", "properties at ci -1 and 0",
@@ -858,6 +858,8 @@ static const char *const vfo_name[FO_NOP] = {
     "error model, short, open and a load correlated with MATCH, solve",
     "through, unknown reflect on port 2 only, line of unknown "
 	"transmission, solve",
+    "short, open, match and an unknown reflect on port 1, solve, read the "
+	"unknown at, between and far from the calibration frequencies",
 };
 
 static void vfr_query(vnacal_t *vcp)
@@ -1088,6 +1090,50 @@ static void run_vfr(long idx, vf_result *r)
 		(void)vnacal_new_solve(vnp);
 		(void)vnacal_delete_parameter(vcp, pl);
 		(void)vnacal_delete_parameter(vcp, pr);
+	    }
+	    break;
+	case FO_UNKNOWN_READ:
+	    /* an unknown reflect next to short, open and match on port 1,
+	       solved, then read at and around the calibration frequencies;
+	       solved once before on a calibration of three frequencies, so
+	       that the unknown holds a table which this solve replaces.
+	       The readings are those of a one-port error box. */
+	    if (vnp) {
+		static const double complex gam[4] = { -1.0, 1.0, 0.0,
+		    -0.6 + 0.3 * I };
+		double complex cellv[4][9][3];
+		double complex *mm[4][9];
+		int pu = vnacal_make_unknown_parameter(vcp, VNACAL_SHORT);
+		int par[4] = { VNACAL_SHORT, VNACAL_OPEN, VNACAL_MATCH, pu };
+		vnacal_new_t *first = vnacal_new_alloc(vcp, type, rows, cols,
+			3);
+		for (int k = 0; k < 4; ++k)
+		    for (int c = 0; c < rows * cols && c < 9; ++c) {
+			for (int f = 0; f < 3; ++f)
+			    cellv[k][c][f] = c == 0 ?
+				(0.03 + 0.02 * I) + (0.9 - 0.15 * I) * gam[k] /
+				(1.0 - (-0.05 + 0.1 * I) * gam[k]) :
+				1e-3 * (c + 1);
+			mm[k][c] = cellv[k][c];
+		    }
+		if (first != NULL) {
+		    (void)vnacal_new_set_frequency_vector(first, F->f3);
+		    for (int k = 0; k < 4; ++k)
+			(void)vnacal_new_add_single_reflect_m(first, mm[k],
+				rows, cols, par[k], 1);
+		    (void)vnacal_new_solve(first);
+		    (void)vnacal_get_parameter_value(vcp, pu, F->f3[1]);
+		    vnacal_new_free(first);
+		}
+		for (int k = 0; k < 4; ++k)
+		    (void)vnacal_new_add_single_reflect_m(vnp, mm[k], rows,
+			    cols, par[k], 1);
+		(void)vnacal_new_solve(vnp);
+		(void)vnacal_get_parameter_value(vcp, pu, F->f3[0]);
+		(void)vnacal_get_parameter_value(vcp, pu, F->f3[2]);
+		(void)vnacal_get_parameter_value(vcp, pu, 0.0);
+		(void)vnacal_get_parameter_value(vcp, pu, 1e12);
+		(void)vnacal_delete_parameter(vcp, pu);
 	    }
 	    break;
 	case FO_DEL_PREDEF:
